@@ -4,7 +4,7 @@ module M = struct
 end
 (* ------------------------------------------------------------------ curve *)
 let rates_s (r : M.rates) : string =
-  String.concat " " [zs r.M.r_base; zs r.M.r_lending; zs r.M.r_borrowing; zs r.M.r_group; zs r.M.r_insurance; zs r.M.r_protocol]
+  Stdlib.String.concat " " [zs r.M.r_base; zs r.M.r_lending; zs r.M.r_borrowing; zs r.M.r_group; zs r.M.r_insurance; zs r.M.r_protocol]
 
 let suite_curve (line : string) : string =
   let t = toks_of_line line in
@@ -13,7 +13,7 @@ let suite_curve (line : string) : string =
   let n = ni t in
   let v = res_s (fun () -> "OK") (M.ir_validate c) in
   let outs = Stdlib.List.init n (fun _ -> let ur = nz t in res_s rates_s (M.calc_interest_rate c pf ur)) in
-  String.concat " | " (v :: outs)
+  Stdlib.String.concat " | " (v :: outs)
 
 
 let () = register "curve" suite_curve
